@@ -1137,8 +1137,20 @@ def backpressure_program(rng):
     is slow on its first read, and a second sender thread (prefetch / readv / getfo) has far more requests to send than
     fit. The application itself only reads while that thread sends (anything else can legitimately wedge on flow
     control), then goes on with ordinary requests."""
-    cap = rng.choice([2048, 4096, 4096, 32768])
-    n = rng.choice([150, 400, 900]) if cap < 32768 else rng.choice([1500, 3000])
+    if rng.random() < 0.3:
+        # only the request direction is tight (send() takes a few dozen bytes at a time, as with a nearly exhausted
+        # window): no flow-control wedge is possible, so the application may use the session while the prefetch
+        # thread is still writing its requests
+        cap = {"vf-client": rng.choice([24, 40, 100, 300])}
+        n = rng.choice([300, 900])
+        steps = [("open_r", "b", "/big"), ("prefetch", "b", None)]
+        for _ in range(rng.randint(3, 12)):
+            steps.append(rng.choice([("stat", "/r0"), ("lstat", "/r1"), ("normalize", "/"), ("listdir", "/d"),
+                                     ("in_thread", ("stat", "/r0")), ("fstat", "b")]))
+        steps += [("read", "b", n * 1024 + 10), ("close", "b"), ("stat", "/r1")]
+        return dict(family="backpressure", how="tight-request-pipe+app-requests", capacity=cap, blocks=n), steps
+    cap = rng.choice([2048, 4096, 4096, 4096, 8192, 32768])
+    n = rng.choice([150, 400, 900]) if cap < 32768 else rng.choice([1400, 3000])
     how = rng.choice(["readv", "readv", "readv-shuffled", "prefetch-read", "getfo"])
     steps = []
     if how.startswith("readv"):
@@ -1240,7 +1252,7 @@ def client_case(ctx, idx):
     rng = ctx.rng
     r = rng.random()
     fam = "steal" if r < 0.12 else "iter" if r < 0.2 else "itersusp" if r < 0.38 else "abandon" if r < 0.57 else \
-        "lastref" if r < 0.6 else "backpressure" if r < 0.72 else "random"
+        "lastref" if r < 0.6 else "backpressure" if r < 0.69 else "random"
     desc, steps = steal_program(rng) if fam == "steal" else iter_program(rng) if fam == "iter" else \
         iter_suspend_program(rng) if fam == "itersusp" else abandon_program(rng) if fam == "abandon" else \
         last_ref_program(rng) if fam == "lastref" else backpressure_program(rng) if fam == "backpressure" else \
@@ -1267,7 +1279,7 @@ def client_case(ctx, idx):
         bench = MonBench(root)
         if fam == "backpressure":
             bench.wire.d2_capacity = desc["capacity"]
-            state = dict(first=True)
+            state = dict(first=isinstance(desc["capacity"], int))
 
             def before_read(bench=bench, state=state):
                 # "server slow on the first read": it resumes once the client's sender is parked on the full
@@ -1330,7 +1342,17 @@ def client_case(ctx, idx):
         ctx.count("client_pipelined_write_requests", sum(1 for p in reqs if p["type"] == CMD["WRITE"]))
         ctx.count("client_steps_executed", len(prog.log))
         ctx.count("client_programs_family_" + desc["family"])
+        if bench.wire.client_end.interleaves:
+            ctx.count("client_frames_interleaved")
+            ctx.violation("client request stream corrupted: two sending threads' partial sends interleaved under "
+                          "back-pressure (no lock around writing one request)",
+                          "while one client thread had written only part of a request (send() took fewer bytes than "
+                          "offered), another client thread wrote its own request into the gap, %d time(s)"
+                          % bench.wire.client_end.interleaves,
+                          dict(program=desc, steps=[list(x) for x in steps][:20], verdict=verdict,
+                               partial_sends=bench.wire.client_end.partial_sends))
         if fam == "backpressure":
+            ctx.count("backpressure_partial_sends", bench.wire.client_end.partial_sends)
             ctx.count("backpressure_client_sends_parked_on_full_pipe", bench.wire.client_end.send_blocks)
             ctx.count("backpressure_server_sends_parked_on_full_pipe", bench.wire.server_end.send_blocks)
             ctx.count("backpressure_bytes_read_via_readv", getattr(prog, "bytes_read", 0))
@@ -1471,12 +1493,21 @@ def busy_stack(prog):
 
 
 def stuck(ctx, bench, prog, desc, quiet):
+    if bench.wire.client_end.interleaves:
+        ctx.count("hangs_after_request_stream_corruption_reported_as_corruption")
+        return "corrupted"
     t, names = busy_stack(prog)
     site = "->".join(names[-2:]) if names else "?"
     step = prog.steps[prog.at]
     ctx.count("client_calls_stuck_at_quiescence")
     with bench.wire.c2s.cv:
         sender_parked = bench.wire.client_end.send_waiting
+    if sender_parked and ("_async_request" in names or "_send_packet" in names):
+        # the application thread itself is trying to SEND while both directions are full: the inherent flow-control
+        # wedge of a request/response protocol without a dedicated reader; the premise "the server answers every
+        # request" is not met (the server cannot), so this is not judged
+        ctx.count("flow_control_wedges_not_judged")
+        return "wedged"
     if sender_parked:
         ctx.violation("client stuck forever in %s without reading while its own sender is parked on the full "
                       "request pipe (flow-control deadlock)" % site,
@@ -1505,7 +1536,10 @@ def request_storm(ctx, bench, prog, desc):
         return False
     pk = bench.packets_from(prog.step_p0)
     nreq = sum(1 for p in pk if p["dir"] == "c2s")
-    if nreq > MAX_REQUESTS_PER_CALL and prog.steps[prog.at][0] not in ("listdir_iter", "iter_interleave"):
+    limit = MAX_REQUESTS_PER_CALL
+    if prog.steps[prog.at][0] == "readv_blocks":
+        limit = max(limit, 10 * prog.steps[prog.at][2])  # prefetch + synchronous fall-back reads of the same blocks
+    if nreq > limit and prog.steps[prog.at][0] not in ("listdir_iter", "iter_interleave"):
         nresp = sum(1 for p in pk if p["dir"] == "s2c")
         ctx.count("client_livelocks_detected")
         ctx.violation("client never returns: one call keeps issuing requests (all answered) without end",
@@ -1539,6 +1573,9 @@ def request_storm(ctx, bench, prog, desc):
 
 
 def blocked(ctx, bench, prog, desc, nreq, nresp, others):
+    if bench.wire.client_end.interleaves:
+        ctx.count("hangs_after_request_stream_corruption_reported_as_corruption")
+        return "corrupted"
     bt, names = busy_stack(prog)
     fr = sys._current_frames().get(bt.ident)
     site = "?"
@@ -1631,7 +1668,8 @@ def run(ctx):
     ctx.require("backpressure_programs_completed", ctx.pick(10, 200))
     ctx.require("backpressure_client_sends_parked_on_full_pipe", ctx.pick(10, 200))
     ctx.require("backpressure_server_sends_parked_on_full_pipe", ctx.pick(10, 200))
-    ctx.require("backpressure_server_resumed_with_client_sender_parked", ctx.pick(5, 100))
+    ctx.require("backpressure_server_resumed_with_client_sender_parked", ctx.pick(2, 40))
+    ctx.require("backpressure_partial_sends", ctx.pick(200, 4000))
     ctx.require("listings_completed_after_suspension", ctx.pick(10, 120))
     ctx.require("perturbed_async_sends_answered_before_send_returned", ctx.pick(50, 800))
     ctx.require("client_pipelined_write_requests", ctx.pick(10000, 200000))
